@@ -74,7 +74,18 @@ def make_geom(g):
     raise ValueError(g)
 
 
-_SHAPES = {"gauss": GaussianLine, "zeeman": ZeemanTriplet}
+_SHAPES = {"gauss": GaussianLine, "zeeman": ZeemanTriplet, "stark": StarkBroadenedLine, "multiplet": MultipletLineShape}
+
+
+def _shape_kw(m):
+    sh = m.get("shape", "gauss")
+    if sh == "zeeman":
+        return dict(lineshape_kwargs={"polarisation": m.get("pol", "no")})
+    if sh == "stark":
+        return dict(lineshape_kwargs={"stark_model_coefficients": tuple(m["stark"]), "polarisation": m.get("pol", "no")})
+    if sh == "multiplet":
+        return dict(lineshape_args=[m["multiplet"]])
+    return {}
 
 
 def make_pmodel(m):
@@ -92,10 +103,8 @@ def make_pmodel(m):
     if k == "trp":
         return TotalRadiatedPower(el, m["q"])
     line = Line(el, m["q"], tuple(m["tr"]))
-    kw = {}
     shape = _SHAPES[m.get("shape", "gauss")]
-    if m.get("shape") == "zeeman":
-        kw = dict(lineshape_kwargs={"polarisation": m.get("pol", "no")})
+    kw = _shape_kw(m)
     cls = {"exc": ExcitationLine, "rec": RecombinationLine, "tcx": ThermalCXLine}[k]
     return cls(line, lineshape=shape, **kw)
 
@@ -105,10 +114,8 @@ def make_bmodel(m):
         return BeamEmissionLine(Line(species_obj(m["el"]), 0, (3, 2)))
     el = species_obj(m["el"])
     line = Line(el, m["q"], tuple(m["tr"]))
-    kw = {}
     shape = _SHAPES[m.get("shape", "gauss")]
-    if m.get("shape") == "zeeman":
-        kw = dict(lineshape_kwargs={"polarisation": m.get("pol", "no")})
+    kw = _shape_kw(m)
     return BeamCXLine(line, lineshape=shape, **kw)
 
 
